@@ -51,7 +51,11 @@ type Result struct {
 	Inconclusive []string            `json:"inconclusive,omitempty"`
 	Sample       any                 `json:"sample,omitempty"`
 	RaceReports  []string            `json:"race_reports,omitempty"`
-	mu           sync.Mutex
+	// Poisoned: the case left something behind in this process that cannot be stopped (a
+	// goroutine spinning inside the library); the child ends after reporting the case and the
+	// supervisor runs the remaining cases in a fresh process.
+	Poisoned bool `json:"poisoned,omitempty"`
+	mu       sync.Mutex
 }
 
 // NewResult returns an empty result.
